@@ -14,8 +14,13 @@
  * table on every run, vf/c18.py) keeps its value across a sign/verify call */
 #ifdef PROP_C18
 #include "c18o_gen.h"
-#define C18_BEGIN() do { c18_havoc(); c18_snapshot(); } while (0)
-#define C18_END() c18_check()
+static int c18_armed;
+#define C18_BEGIN() do { c18_havoc(); c18_snapshot(); c18_armed = 1; } while (0)
+#define C18_END() do { c18_check(); c18_armed = 0; } while (0)
+/* observation points: every call out to the crypto library (stubs M4/M5) and to the other
+ * provider happens with all process-wide state as it was on entry - a transient write (set,
+ * call, restore) is visible to other threads exactly there */
+void vf_c18_observe(void) { if (c18_armed) c18_check(); }
 #else
 #define C18_BEGIN() ((void)0)
 #define C18_END() ((void)0)
@@ -30,7 +35,19 @@ int openssl_process_eddsa(json_t *jwk, jwk_item_t *item) { return -1; }
 int openssl_process_rsa(json_t *jwk, jwk_item_t *item) { return -1; }
 int openssl_process_ec(json_t *jwk, jwk_item_t *item) { return -1; }
 void openssl_process_item_free(jwk_item_t *item) { }
+#ifdef PROP_C18
+/* jwt_init (a constructor in jwt-crypto-ops.c) consults JWT_CRYPTO: unset here, the provider is
+ * selected explicitly in setup() */
+char *getenv(const char *name) { return NULL; }
+/* C18 queries link the real libjwt/jwt-crypto-ops.c (it owns jwt_ops and the provider table); the
+ * other provider is a stub whose entry points are observation points */
+static int other_verify(jwt_t *jwt, const char *head, unsigned int head_len, unsigned char *sig, int sig_len) { vf_c18_observe(); return nondet_int(); }
+static int other_sign(jwt_t *jwt, char **out, unsigned int *len, const char *str, unsigned int str_len) { vf_c18_observe(); return 1; }
+struct jwt_crypto_ops jwt_gnutls_ops = { .name = "gnutls", .provider = JWT_CRYPTO_OPS_GNUTLS,
+	.sign_sha_hmac = other_sign, .sign_sha_pem = other_sign, .verify_sha_pem = other_verify };
+#else
 struct jwt_crypto_ops *jwt_ops = &jwt_openssl_ops;
+#endif
 
 static jwk_item_t key;
 static jwt_t jwt;
@@ -66,6 +83,9 @@ static int family_ok(jwt_alg_t a, int t)
 
 static void setup(void)
 {
+#ifdef PROP_C18
+	jwt_ops = &jwt_openssl_ops;
+#endif
 	unsigned a = nondet_uint();
 
 	vf_install_alloc();
